@@ -389,6 +389,17 @@ def check_sign(ctx) -> None:
                     v1, v2 = fw[0][1], rv[0][1]
                     if _negation(v2, v1):
                         ctx.ok("C01.sign", fn, n, "coefficients {forward: c, reverse: -c}")
+                    elif isinstance(v1, ast.Name) and isinstance(v2, ast.Name) and v1.id != v2.id and v1.id in fn.params and v2.id in fn.params:
+                        # the two coefficients are parameters: the callers decide the relation
+                        sites = _param_pairs(fn, v1.id, v2.id)
+                        if sites is None:
+                            ctx.note(f"C01.sign: {fn.short} receives both coefficients as parameters and its call sites are not all visible: not decided here")
+                        else:
+                            for site, a1, a2 in sites:
+                                if _negation(a2, a1):
+                                    ctx.ok("C01.sign", fn.parent, site, "coefficients {forward: c, reverse: -c} (through a local helper)")
+                                else:
+                                    ctx.bad("C01.sign", fn.parent, site, "the reverse variable's coefficient is not the negation of the forward variable's: the net flux v = forward - reverse gets the wrong weight")
                     else:
                         ctx.bad("C01.sign", fn, n, "the reverse variable's coefficient is not the negation of the forward variable's: the net flux v = forward - reverse gets the wrong weight")
             elif isinstance(n, ast.BinOp) and isinstance(n.op, (ast.Add, ast.Sub)):
@@ -414,6 +425,37 @@ def check_sign(ctx) -> None:
                         ctx.ok("C01.sign", fn, n, "objective coefficient recognised when forward == -reverse")
                     else:
                         ctx.bad("C01.sign", fn, n, "forward and reverse objective coefficients are compared without the sign flip")
+
+
+def _param_pairs(fn: FuncInfo, p1: str, p2: str):
+    """(call, argument for p1, argument for p2) for every call of the nested function ``fn`` in its parent, or None
+    when the function escapes (is used other than by being called) or an argument cannot be matched."""
+    if fn.parent is None or not isinstance(fn.node, ast.FunctionDef):
+        return None
+    a = fn.node.args
+    if a.vararg or a.kwarg:
+        return None
+    names = [x.arg for x in a.posonlyargs + a.args]
+    defaults = dict(zip(names[len(names) - len(a.defaults):], a.defaults))
+    out = []
+    for x in ast.walk(fn.parent.node):
+        if isinstance(x, ast.Name) and x.id == fn.name and isinstance(x.ctx, ast.Load):
+            c = parent(x)
+            if not (isinstance(c, ast.Call) and c.func is x):
+                return None
+            bound = dict(defaults)
+            for nm, arg in zip(names, c.args):
+                if isinstance(arg, ast.Starred):
+                    return None
+                bound[nm] = arg
+            for k in c.keywords:
+                if k.arg is None:
+                    return None
+                bound[k.arg] = k.value
+            if p1 not in bound or p2 not in bound:
+                return None
+            out.append((c, bound[p1], bound[p2]))
+    return out or None
 
 
 def _negation(v2: ast.AST, v1: ast.AST) -> bool:
@@ -1050,7 +1092,9 @@ def check_members(ctx) -> None:
             else:
                 ctx.ok("C01.members", fn, st, f"{m.cell} {m.op} paired with solver {want}")
         # undo entries: a registered list operation needs its solver counterpart registered too
-        regs = [ctx.eff.decode_registration(fn, e.node) for e in eff.own_effects(fn) if e.kind == "REG"]
+        from .c03 import registrations_of
+
+        regs = registrations_of(ctx, fn)
         for r in regs:
             if not isinstance(r.target, ast.Attribute):
                 continue
